@@ -740,7 +740,7 @@ pub fn gen_script(rng: &mut Rng, ctx: &Ctx, mix: &Mix, max_len: usize, end: EndS
     let mut items: Vec<Item> = Vec::with_capacity(n + 1);
     // Listing breakpoints renders label and source text of each marked statement: mark the
     // statements whose text holds multi-byte characters now and then
-    if mix.break_list > 0 && rng.chance(1, 3) {
+    if mix.break_list > 0 && rng.chance(1, 2) {
         let offsets = ctx.program.offsets();
         let wide: Vec<u16> = ctx
             .program
@@ -751,6 +751,7 @@ pub fn gen_script(rng: &mut Rng, ctx: &Ctx, mix: &Mix, max_len: usize, end: EndS
             .map(|(_, o)| ctx.program.origin().wrapping_add(*o as u16))
             .collect();
         if !wide.is_empty() {
+            // (counted by the session report as probe:break_list_on_multibyte_statement)
             let addr = *rng.pick(&wide);
             items.push(Item {
                 cmd: Cmd::BreakAdd(Loc::Abs(addr as i64)),
